@@ -3,6 +3,9 @@
 canon(obj) walks __dict__/__slots__, dict/odict, list/tuple, numpy arrays (dtype+shape+bytes, NaN-aware), DataFrames,
 TimeSeries, datetimes and returns a nested hashable value; `skip` removes declared metadata.  Used for "inputs unchanged",
 "copy equals original" and result digests.  Pickle bytes are never used for equality.
+
+Projection helpers (C16): pdiff(a, b, rtol) compares two *projections* (plain nested dict / tuple / list / set / scalars);
+floats are compared with a relative tolerance and None == NaN == "" (an empty spreadsheet cell); dict order is irrelevant.
 """
 import numpy as np
 import pandas as pd
@@ -146,3 +149,95 @@ def compare_results(a, b, rtol=0.0, i0a=0, i0b=0):
             i = int(np.argwhere(neq)[0][-1])
             return (k, i, x[..., i].tolist(), y[..., i].tolist())
     return None
+
+
+# --------------------------------------------------------------------------- projections
+
+
+def is_empty(x):
+    """what an empty spreadsheet cell may turn into: None, NaN, pandas NA, empty string"""
+    if x is None:
+        return True
+    if isinstance(x, str):
+        return x.strip() == ""
+    try:
+        return bool(x != x)
+    except Exception:
+        try:
+            return bool(pd.isna(x))
+        except Exception:
+            return False
+
+
+def norm_scalar(x):
+    """normalise a table cell: empty -> None, numpy scalar -> python, numbers -> float, strings stripped"""
+    if is_empty(x):
+        return None
+    if isinstance(x, (np.floating, np.integer)):
+        x = x.item()
+    if isinstance(x, np.bool_):
+        return bool(x)
+    if isinstance(x, bool):
+        return x
+    if isinstance(x, (int, float)):
+        return float(x)
+    if isinstance(x, str):
+        return x.strip()
+    return x
+
+
+def num_close(a, b, rtol):
+    if a == b:
+        return True
+    if a != a and b != b:
+        return True
+    if rtol <= 0:
+        return False
+    return abs(a - b) <= rtol * max(abs(a), abs(b))
+
+
+def pdiff(a, b, rtol=0.0, path="", out=None, limit=8):
+    """differences between two projections; returns list of (path, a, b). Dict key order is irrelevant."""
+    if out is None:
+        out = []
+    if len(out) >= limit:
+        return out
+    if isinstance(a, dict) and isinstance(b, dict):
+        for k in sorted(set(a) | set(b), key=repr):
+            if k not in a:
+                out.append((path + "/" + str(k), "<absent>", _short(b[k])))
+            elif k not in b:
+                out.append((path + "/" + str(k), _short(a[k]), "<absent>"))
+            else:
+                pdiff(a[k], b[k], rtol, path + "/" + str(k), out, limit)
+            if len(out) >= limit:
+                break
+        return out
+    if isinstance(a, (set, frozenset)) and isinstance(b, (set, frozenset)):
+        if a != b:
+            out.append((path, "only-left:" + _short(sorted(a - b, key=repr)), "only-right:" + _short(sorted(b - a, key=repr))))
+        return out
+    if isinstance(a, (tuple, list)) and isinstance(b, (tuple, list)):
+        if len(a) != len(b):
+            out.append((path + "#len", _short(a), _short(b)))
+            return out
+        for i, (x, y) in enumerate(zip(a, b)):
+            pdiff(x, y, rtol, path + "[%d]" % i, out, limit)
+        return out
+    ea, eb = is_empty(a), is_empty(b)
+    if ea or eb:
+        if ea != eb:
+            out.append((path, _short(a), _short(b)))
+        return out
+    if isinstance(a, (int, float, np.floating, np.integer)) and isinstance(b, (int, float, np.floating, np.integer)) and not isinstance(a, bool) and not isinstance(b, bool):
+        if not num_close(float(a), float(b), rtol):
+            out.append((path, repr(a), repr(b)))
+        return out
+    if a != b:
+        out.append((path, _short(a), _short(b)))
+    return out
+
+
+def _short(x, n=160):
+    s = repr(x)
+    return s if len(s) <= n else s[:n] + "..."
